@@ -65,12 +65,19 @@ def run(ctx):
     ctx.level = "model_checking"
     d = common.scratch()
     rng = random.Random(ctx.seed * 104729 + 11)
-    # ---- 1. design: count-down / completion protocol, exhaustive
-    for cfg in (["MC_TpBcast.cfg"] if ctx.quick else ["MC_TpBcast.cfg", "MC_TpBcast_3.cfg"]):
-        r = common.tlc("MC_TpBcast", cfg=cfg, workers=6, coverage=True, timeout=1500, xmx="12g")
+    # ---- 1. design: count-down / completion protocol at C-statement granularity, exhaustive
+    import glob
+    cfgs = sorted(os.path.basename(f) for f in glob.glob(os.path.join(common.VERIF, "specs", "tp", "MC_TpBcast_*.cfg")))
+    if ctx.quick: cfgs = [c for c in cfgs if "_4" not in c]
+    for cfg in cfgs:
+        r = common.tlc("MC_TpBcast", cfg=cfg, workers=4, coverage=False, timeout=900)
         ctx.tlc_stats(r, cfg)
-        if r.rc != 0:
-            ctx.fail("model:TpBcast:" + (r.violation or "error"), r.out[-3000:], {"cfg": cfg})
+        if "_orig" in cfg:
+            # sensitivity: the model of the ORIGINAL code (done_cb read after the unlock) must violate the property
+            if r.rc != 12 or "NoTouchAfterDeath" not in (r.violation or ""):
+                raise common.Infra("vacuity: model of the pre-fix code no longer violates NoTouchAfterDeath (%s)" % r.violation)
+        elif r.rc != 0:
+            ctx.fail("model:TpBcast:%s:%s" % (cfg, r.violation or "error"), r.out[-3000:], {"cfg": cfg})
     # ---- 2. code: scenarios, every event validated
     exe = tp.build(d)
     nsc = 40 if ctx.quick else 600
@@ -89,6 +96,9 @@ def run(ctx):
             continue
         ok, info, r = tp.validate(ctx, prep(evs), d, "c10_%d" % sid, KEEP)
         ntr += len(texts); total_ev += info["events"]
+        for dv in set(re.findall(r'"DEVIATION",\s*"([^"]+)"', r.out)):
+            ctx.fail("deviation:" + dv, "the trace took the named deviation action of TpBcast (see specs/tp/TpBcast.tla)",
+                     {"scenario": "".join(texts), "seed": ctx.seed + sid})
         if not samples: samples.append({"scenario": texts[0].split("\n")[:14], "events_validated": info["events"]})
         if not ok:
             rc2, out2, evs2 = tp.run_scenario(exe, "".join(texts), d, ctx.seed + sid, "c10r_%d" % sid, timeout=300)
